@@ -22,6 +22,8 @@ func init() {
 		}
 		jobs = append(jobs, Job{Pkg: filePkg, Fn: "VF_C16_Ignore", Opts: opts, Tag: "ignore lists", Case: "ignore",
 			Params: map[string]string{"tag": fmt.Sprintf("i_%d", cr.Seed), "exact_json_len": "1"}})
+		jobs = append(jobs, Job{Pkg: filePkg, Fn: "VF_C16_Content", Opts: opts, Tag: "content read back", Case: "content",
+			Params: map[string]string{"tag": fmt.Sprintf("c_%d", cr.Seed), "exact_json_len": "1"}})
 		res := cr.Pool.Run(jobs)
 		cr.absorb(jobs, res)
 		st, tr := 0, 0
